@@ -78,6 +78,9 @@ def _evaluate(col, p, shape, m, d, mm, dm, data_folded, tag):
     else:
         data = dadi.Spectrum(d.copy(), mask=dm.copy(), mask_corners=False)
         d_eff, dm_eff, m_eff, mm_eff = d, dm, m, mm
+        # what sits underneath a mask is not data: put non-finite junk there (as spectra read from files or produced by 0/0 often carry)
+        model.data[mm] = np.nan
+        data.data[dm] = np.inf
     snap = [np.asarray(model.data).copy(), np.ma.getmaskarray(model).copy(), np.asarray(data.data).copy(), np.ma.getmaskarray(data).copy()]
     info = dict(p, tag=tag, model=m, model_mask=mm.astype(int), data=d, data_mask=dm.astype(int), data_folded=data_folded)
     # --- ll
@@ -131,7 +134,7 @@ def _evaluate(col, p, shape, m, d, mm, dm, data_folded, tag):
                 col.violation('C11:optimally_scaled_sfs:value', info, '')
     # --- inputs untouched
     now = [np.asarray(model.data), np.ma.getmaskarray(model), np.asarray(data.data), np.ma.getmaskarray(data)]
-    if not all(np.array_equal(a, b) for a, b in zip(snap, now)) or model.folded or bool(data.folded) != data_folded:
+    if not all(np.array_equal(a, b, equal_nan=(a.dtype.kind == "f")) for a, b in zip(snap, now)) or model.folded or bool(data.folded) != data_folded:
         col.violation('C11:inputs_modified', info, '')
 
 
@@ -217,7 +220,7 @@ def case_resid(col, p):
     m, d = _base(shape, p['seed'])
     free = _free_entries(shape, 2)
     n = 0
-    for mv, x in itertools.product([0.0, 1e-3, 0.5, 2.5, 40.0], DVALS):
+    for mv, x in itertools.product([-0.5, 0.0, 1e-3, 0.5, 2.5, 40.0], DVALS):
         mm = np.zeros(shape, bool); dm = np.zeros(shape, bool)
         mm[free[1]] = True
         m2, d2 = m.copy(), d.copy()
@@ -247,6 +250,10 @@ def case_resid(col, p):
                 col.violation('C11:linear_Poisson_residual:mask', info, {'got': np.ma.getmaskarray(lin).astype(int), 'exp': exmask.astype(int)})
             elif not np.allclose(np.asarray(lin.data)[sel], exlin[sel], rtol=1e-12, atol=1e-14):
                 col.violation('C11:linear_Poisson_residual:value', info, '')
+            # the variance-stabilised residual masks what it cannot evaluate (model <= 0): every unmasked entry is a finite number
+            am = np.ma.getmaskarray(ans)
+            if not np.isfinite(np.asarray(ans.data)[~am]).all():
+                col.violation('C11:Anscombe_Poisson_residual:unmasked_non_finite', info, {'values': np.asarray(ans.data)[~am & ~np.isfinite(np.asarray(ans.data))][:4]})
             # documented sign: residual positive where the model is above the data (both kinds)
             ga = np.asarray(np.ma.filled(ans, np.nan))
             for idx in np.ndindex(*shape):
